@@ -312,7 +312,7 @@ def _simplifiers():
                 return N(to)
         return t
     def unnest(t):
-        return N("St") if t == N("Nest") else t
+        return N("St") if t in (N("Nest"), N("Zst"), N("SB"), N("OutSt")) else t
     return [str_to_slice, unmut, prim_u8, fnmut, ffi_slice, box_slice, dopt, unfresh, unnest]
 
 
@@ -351,6 +351,8 @@ def subterm_replacements(t, root_unit=False):
             if x[0] in ("slice", "str", "named", "ffi", "write", "prim", "res"):
                 yield ("ref", t[1], x)
     elif k in ("box", "opt", "dopt"):
+        if k != "box":
+            yield t[1]                      # the Option wrapper itself may be irrelevant
         for x in subterm_replacements(t[1]):
             yield (k, x)
     elif k == "res":
@@ -378,9 +380,51 @@ def _used_names(it):
     return txt
 
 
+def canon_names(it):
+    """rename the focus method to `f` and the fresh types to T1, T2, ..: equal programs get equal text"""
+    c = it.clone()
+    ren = {}
+    for i, td in enumerate(c.types):
+        ren[td["name"]] = "T%d" % (i + 1)
+    if not ren and not c.m:
+        return c
+
+    def fix(t):
+        if t[0] == "ffi" and t[2].startswith("fresh:"):
+            base = t[1].split("<")[0]
+            if base in ren:
+                return ("ffi", ren[base] + t[1][len(base):], t[2])
+        return t
+    for td in c.types:
+        td["fields"] = [(n, _map_term(t, fix)) for n, t in td["fields"]]
+        td["methods"] = [re.sub(r"\b(%s)\b" % "|".join(map(re.escape, ren)), lambda mm: ren[mm.group(1)], mt) for mt in td["methods"]] if ren else td["methods"]
+        td["name"] = ren[td["name"]]
+    if c.m:
+        c.m["name"] = "f"
+        c.m["params"] = [(n, _map_term(t, fix)) for n, t in c.m["params"]]
+        if c.m["ret"] is not None:
+            c.m["ret"] = _map_term(c.m["ret"], fix)
+        if c.m["owner"] in ren:
+            c.m["owner"] = ren[c.m["owner"]]
+    return c
+
+
 def reductions(it):
     m = it.m
     if m:
+        # big jumps first: a single parameter / the return value / the declared types on their own
+        if m["selff"] or m["ret"] is not None or m["attr"] or len(m["params"]) > 1 or m["owner"] != "Op":
+            for i in range(len(m["params"])):
+                c = it.clone()
+                c.m.update({"owner": "Op", "okind": "opaque", "olt": False, "selff": None, "ret": None, "attr": None, "params": [m["params"][i]]})
+                yield c
+            if m["ret"] is not None and (m["params"] or m["attr"] or m["owner"] != "Op"):
+                c = it.clone()
+                c.m.update({"owner": "Op", "okind": "opaque", "olt": False, "selff": "&'a self" if G.has_lt(m["ret"]) else None, "attr": None, "params": []})
+                yield c
+        if it.types:
+            c = it.clone(); c.m = None
+            yield c
         if m["attr"]:
             c = it.clone(); c.m["attr"] = None
             yield c
@@ -414,6 +458,9 @@ def reductions(it):
                 yield c
             if m["selff"] == "&mut self":
                 c = it.clone(); c.m["selff"] = "&self"
+                yield c
+            if m["okind"] != "opaque":
+                c = it.clone(); c.m.update({"owner": "Op", "okind": "opaque", "olt": False, "selff": "&self"})
                 yield c
             if "'a" in m["selff"]:
                 c = it.clone(); c.m["selff"] = m["selff"].replace("'a ", "")
